@@ -34,6 +34,9 @@ def states(tier, seed):
         if fm is not None and model == "tube":
             continue
         st.append(dict(pf=pf, side=side, ny=ny, model=model, nfac=nfac, fuel=fm, reserve=res, pm=pm, fam=fam))
+        # a geometry variable that moves the spanwise stations away from those of the user's mesh
+        if model == "wingbox" and fm is not None and pm in ("none", "two"):
+            st.append(dict(pf=pf, side=side, ny=ny, model=model, nfac=nfac, fuel=fm, reserve=res, pm=pm, span=13.0 if side != "full" else 7.5, yshear=True, fam=fam))
         # every inertial load source ALONE: without structural weight relief (the load factor reaches each source by its own wiring)
         if pf == "swept" and (fm is not None or pm != "none") and not (fm is not None and pm != "none" and tier == "quick"):
             st.append(dict(pf=pf, side=side, ny=ny, model=model, nfac=nfac, fuel=fm, reserve=res, pm=pm, relief=False, fam=fam))
@@ -51,6 +54,9 @@ def run_state(s):
     kw = dict(struct_weight_relief=relief, distributed_fuel_weight=s["fuel"] is not None)
     if s["model"] == "wingbox":
         kw["Wf_reserve"] = s["reserve"]
+    if s.get("span"):
+        kw["span"] = s["span"]
+        kw["yshear_cp"] = np.array([0.0, 0.2, -0.1]) if s.get("yshear") else np.zeros(3)
     pmset = PM_SETS[s["pm"]]
     pm = None
     if pmset:
